@@ -37,6 +37,7 @@ type Event struct {
 	N     int      `json:"n"`    // job instance
 	Ents  [][3]int `json:"ents"` // [id, content, deleted]
 	// jbatch in pipeline mode: an entity the sink refuses (nil reference, fresh id PoisonID) is inserted at this index
+	Cancelled bool `json:"cancelled,omitempty"` // http end / jend: the request (run) context is already cancelled
 	Poison   *int `json:"poison,omitempty"`
 	PoisonID int  `json:"poison_id,omitempty"`
 }
@@ -44,6 +45,7 @@ type Event struct {
 type Case struct {
 	LeaseMs  int     `json:"lease_ms"`
 	Pipeline bool    `json:"pipeline"` // job events go through the real FullSyncPipeline.sync where a run is in progress
+	LongIDs  bool    `json:"long_ids"` // sync ids 1 and 2 are sent as 80+ byte strings that differ in their last byte only
 	OnError  string  `json:"on_error"` // the job trigger's onError JSON for pipeline runs ("" = no error handler)
 	Events   []Event `json:"events"`
 }
@@ -106,6 +108,14 @@ func txnPayload(ents [][3]int) string {
 	}
 	sb.WriteString("]}")
 	return sb.String()
+}
+
+// syncID is the header value of model sync id n (> 0).  With long ids, 1 and 2 share a 76-byte prefix.
+func syncID(n int, long bool) string {
+	if long && (n == 1 || n == 2) {
+		return "fullsync/tenant-acme/export-nightly/dataset-d/region-eu-north-1/pool-7/run-0000" + strconv.Itoa(n)
+	}
+	return "sync-" + strconv.Itoa(n)
 }
 
 func statusClass(code int) int {
@@ -373,13 +383,19 @@ func runOnce(c Case, dir string) (obs Obs, taint bool) {
 			switch ev.K {
 			case "http":
 				req := httptest.NewRequest(http.MethodPost, "/datasets/d/entities", strings.NewReader(payload(ev.Ents)))
-				req = req.WithContext(context.Background())
+				if ev.Cancelled {
+					cctx, cancel := context.WithCancel(context.Background())
+					cancel() // the client of this request is gone
+					req = req.WithContext(cctx)
+				} else {
+					req = req.WithContext(context.Background())
+				}
 				req.Header.Set("Content-Type", "application/json")
 				if ev.Start {
 					req.Header.Set("universal-data-api-full-sync-start", "true")
 				}
 				if ev.ID != 0 {
-					req.Header.Set("universal-data-api-full-sync-id", "sync-"+strconv.Itoa(ev.ID))
+					req.Header.Set("universal-data-api-full-sync-id", syncID(ev.ID, c.LongIDs))
 				}
 				if ev.End {
 					req.Header.Set("universal-data-api-full-sync-end", "true")
@@ -455,7 +471,9 @@ func runOnce(c Case, dir string) (obs Obs, taint bool) {
 				}
 			case "jend":
 				var err error
-				if p := pipes[ev.N]; c.Pipeline && p != nil && p.Running() {
+				if ev.Cancelled {
+					err = sinkOf(ev.N).EndCancelled()
+				} else if p := pipes[ev.N]; c.Pipeline && p != nil && p.Running() {
 					err = p.End()
 				} else {
 					err = sinkOf(ev.N).End()
